@@ -788,9 +788,14 @@ func c09Session(c *Ctx, dflt string, lines []string) {
 				if b := rec.Bufs[0]; b != nil && b.Len() > 0 {
 					realF := c09RealFilters(b.String())
 					var want []string
-					for _, f := range rev.filters {
+					// a long filter is shown shortened; where exactly it is cut is not promised (bytes,
+					// runes): compare the first 60 bytes of such filters only
+					for i, f := range rev.filters {
 						if len(f) > 80 {
-							f = f[:80] + "…"
+							f = f[:60]
+							if i < len(realF) && len(realF[i]) >= 60 {
+								realF[i] = realF[i][:60]
+							}
 						}
 						want = append(want, f)
 					}
@@ -1100,7 +1105,7 @@ func c09Web(c *Ctx, cs *c09Case) {
 
 func runC09(c *Ctx) {
 	c.Res.Rule = "correspondence (in-process, exported plug-in API): -tagfocus values vs model outcome class; interactive sessions with a scripted UI vs the model's per-line events, output file, active filters and final option values; candidate-binary counts of locateBinaries; command/option tables. " +
-		"Campaign (real pprof binary, one process per case; web handlers through the HTTPServer hook): first a deterministic grid of every output command x every option that changes graph construction or trimming (alone and with call_tree) x two trimming settings on a profile with several calling contexts per function; then valid profiles with odd strings/ids/addresses/line numbers/0-1-2-character build ids/labels/units and per-column value patterns (one column zero, all zero, only one column non-zero, cancelling +v/-v, MinInt64/MaxInt64, negative, ones) x option assignments; every fourth CLI/script case and every third web UI also gets -base/-diff_base profiles (same, same stacks with another value pattern, subset, other profile with the same types, reordered/renamed types, unrelated) and the boolean/choice/sample_index option grid (mean, normalize, relative_percentages, call_tree, drop_negative, noinlines, showcolumns, trim, granularity, sort, each sample type) x option assignments (every 8th case fetches its profile from an http URL served by the harness, with faults on the path that saves the local copy: unusable PPROF_TMPDIR/HOME/TMPDIR, file names from profile strings with separators, NUL, over-long) x interactive scripts (grammar + noise + mutation operators over valid lines: case changes incl. unicode case variants of command/option names, digit abbreviations, separator noise, redirections and pipes with odd targets, prefixes/suffixes/concatenations of command names, mixed-case help) x URL query strings; failing input = panic trace, recovered panic, hang, abnormal exit, or a session/server that stops answering. " +
+		"Campaign (real pprof binary, one process per case; web handlers through the HTTPServer hook): first a deterministic grid of every output command x every option that changes graph construction or trimming (alone and with call_tree) x two trimming settings on a profile with several calling contexts per function, and every string-valued option x values whose byte and rune lengths straddle the size limits (long ASCII, 2-/3-/4-byte characters, combining marks, invalid UTF-8); then valid profiles with odd strings/ids/addresses/line numbers/0-1-2-character build ids/labels/units and per-column value patterns (one column zero, all zero, only one column non-zero, cancelling +v/-v, MinInt64/MaxInt64, negative, ones) x option assignments; every fourth CLI/script case and every third web UI also gets -base/-diff_base profiles (same, same stacks with another value pattern, subset, other profile with the same types, reordered/renamed types, unrelated) and the boolean/choice/sample_index option grid (mean, normalize, relative_percentages, call_tree, drop_negative, noinlines, showcolumns, trim, granularity, sort, each sample type) x option assignments (every 8th case fetches its profile from an http URL served by the harness, with faults on the path that saves the local copy: unusable PPROF_TMPDIR/HOME/TMPDIR, file names from profile strings with separators, NUL, over-long) x interactive scripts (grammar + noise + mutation operators over valid lines: case changes incl. unicode case variants of command/option names, digit abbreviations, separator noise, redirections and pipes with odd targets, prefixes/suffixes/concatenations of command names, mixed-case help) x URL query strings; failing input = panic trace, recovered panic, hang, abnormal exit, or a session/server that stops answering. " +
 		"Non-trivial: tagfilter values containing a digit; sessions with at least one assignment or report line; locate cases with a build id; CLI cases that got past flag parsing and profile loading; scripts whose session started; web requests answered 200/400."
 	e := c09Setup()
 	if f := flag.Lookup("replay"); c.Replay == "" || (f != nil && f.Value.String() != "") {
